@@ -3,53 +3,69 @@ From RQ Require Import Model.Num Model.Position Model.Account Model.AccountRun M
 Open Scope Z_scope.
 
 (* ---- a new run erases what earlier runs left behind ---- *)
-Theorem boot_forgets cfg rid p p' :
-  pr_switches (boot cfg rid p) = pr_switches (boot cfg rid p') /\ pr_env (boot cfg rid p) = pr_env (boot cfg rid p') /\
-  pr_cache (boot cfg rid p) = pr_cache (boot cfg rid p').
+Theorem boot_forgets cfg hf rid p p' :
+  pr_switches (boot cfg hf rid p) = pr_switches (boot cfg hf rid p') /\ pr_env (boot cfg hf rid p) = pr_env (boot cfg hf rid p') /\
+  pr_cache (boot cfg hf rid p) = pr_cache (boot cfg hf rid p').
 Proof. repeat split. Qed.
 
 (* two process states a run cannot tell apart: same switches, environment and caches; the margin switch may differ only while no
    futures position was opened in this run; ids differ by a constant *)
-Definition sim (opened : bool) (s s' : proc) : Prop :=
+Definition sim (opened hf : bool) (s s' : proc) : Prop :=
   pr_switches s = pr_switches s' /\ pr_env s = pr_env s' /\ pr_cache s = pr_cache s' /\
-  (opened = true -> pr_margin_on s = true /\ pr_margin_on s' = true).
+  (opened = true -> pr_margin_on s = true /\ pr_margin_on s' = true) /\
+  (hf = true -> pr_future_apis s = true /\ pr_future_apis s' = true).
 Lemma sumq_zero ms : Forall (fun m => m = 0%Q) ms -> sumq ms = 0%Q.
 Proof. induction 1 as [|m ms Hm _ IH]; cbn [sumq]; [reflexivity|]. rewrite Hm, IH. reflexivity. Qed.
 Lemma norm_cons b o l : norm b (o :: l) = (match o with OId z => OId (z - b) | x => x end) :: norm b l.
 Proof. reflexivity. Qed.
-Lemma prun_sim data ops : forall opened s s' b b', sim opened s s' -> wf_ops opened ops -> pr_next_id s - b = pr_next_id s' - b' ->
-  norm b (prun data s ops) = norm b' (prun data s' ops).
+Ltac solve_sim Hm Hf := unfold sim; cbn; repeat split; auto; try (apply Hm; assumption); try (apply Hf; assumption).
+Lemma prun_sim data hf ops : forall opened s s' b b', sim opened hf s s' -> wf_ops opened ops -> api_safe hf ops ->
+  pr_next_id s - b = pr_next_id s' - b' -> norm b (prun data s ops) = norm b' (prun data s' ops).
 Proof.
-  induction ops as [|o ops IH]; intros opened s s' b b' (Hs & He & Hc & Hm) Hwf Hid; [reflexivity|].
+  induction ops as [|o ops IH]; intros opened s s' b b' (Hs & He & Hc & Hm & Hf) Hwf Hsafe Hid; [reflexivity|].
+  assert (api_safe hf ops) as Hsafe' by (intros E Hin; apply (Hsafe E); right; exact Hin).
   destruct o; cbn [prun pstep fst snd wf_ops] in *; rewrite ?norm_cons.
-  - rewrite Hs. f_equal. apply (IH opened); [unfold sim; auto | assumption | assumption].
+  - rewrite Hs. f_equal. apply (IH opened); [solve_sim Hm Hf | assumption | assumption | assumption].
   - rewrite Hc. destruct (lookup key (pr_cache s')) eqn:E; cbn [fst snd]; rewrite ?norm_cons; f_equal.
-    + apply (IH opened); [unfold sim; auto | assumption | assumption].
-    + apply (IH opened); [unfold sim; cbn; repeat split; auto; apply Hm; assumption | assumption | assumption].
-  - rewrite He. f_equal. apply (IH opened); [unfold sim; auto | assumption | assumption].
-  - f_equal; [f_equal; lia|]. apply (IH opened); [unfold sim; cbn; auto | assumption | cbn; lia].
+    + apply (IH opened); [solve_sim Hm Hf | assumption | assumption | assumption].
+    + apply (IH opened); [solve_sim Hm Hf | assumption | assumption | assumption].
+  - rewrite He. f_equal. apply (IH opened); [solve_sim Hm Hf | assumption | assumption | assumption].
+  - f_equal; [f_equal; lia|]. apply (IH opened); [solve_sim Hm Hf | assumption | assumption | cbn; lia].
   - destruct Hwf as [Hz Hwf]. f_equal.
     + destruct opened.
       * destruct (Hm eq_refl) as [-> ->]. reflexivity.
       * rewrite (sumq_zero margins (Hz eq_refl)). destruct (pr_margin_on s), (pr_margin_on s'); reflexivity.
-    + apply (IH opened); [unfold sim; auto | assumption | assumption].
-  - f_equal. apply (IH true); [unfold sim; cbn; auto | assumption | assumption].
+    + apply (IH opened); [solve_sim Hm Hf | assumption | assumption | assumption].
+  - f_equal. apply (IH true); [solve_sim Hm Hf | assumption | assumption | assumption].
+  - destruct hf.
+    + destruct (Hf eq_refl) as [-> ->]. f_equal. apply (IH opened); [solve_sim Hm Hf | assumption | assumption | assumption].
+    + exfalso. apply (Hsafe eq_refl). left. reflexivity.
 Qed.
 (* the outcome of a run is independent of everything earlier runs did in the process (ids renamed) *)
-Theorem run_independent_of_history data cfg rid ops p p' : wf_ops false ops ->
-  norm (pr_next_id p) (prun data (boot cfg rid p) ops) = norm (pr_next_id p') (prun data (boot cfg rid p') ops).
+Theorem run_independent_of_history data cfg hf rid ops p p' : wf_ops false ops -> api_safe hf ops ->
+  norm (pr_next_id p) (prun data (boot cfg hf rid p) ops) = norm (pr_next_id p') (prun data (boot cfg hf rid p') ops).
 Proof.
-  intros Hwf. apply (prun_sim data ops false); [|exact Hwf | cbn; lia].
-  unfold sim; cbn. repeat split; auto; discriminate.
+  intros Hwf Hsafe. apply (prun_sim data hf ops false); [|exact Hwf | exact Hsafe | cbn; lia].
+  unfold sim; cbn. repeat split; auto; try discriminate; subst; apply Bool.orb_true_r.
+Qed.
+(* without that restriction the statement is false: a run without a futures account that calls a futures-only API sees whether an earlier
+   run had one (finding D21) *)
+Theorem api_registry_leaks : exists data cfg rid p p',
+  norm (pr_next_id p) (prun data (boot cfg false rid p) [PFutureApi]) <> norm (pr_next_id p') (prun data (boot cfg false rid p') [PFutureApi]).
+Proof.
+  exists (fun _ => 0), {| sw_reinvest := false; sw_cash_return := false; sw_t1 := false |}, 1,
+    {| pr_switches := {| sw_reinvest := false; sw_cash_return := false; sw_t1 := false |}; pr_env := 0; pr_cache := []; pr_margin_on := false; pr_next_id := 0; pr_future_apis := false |},
+    {| pr_switches := {| sw_reinvest := false; sw_cash_return := false; sw_t1 := false |}; pr_env := 0; pr_cache := []; pr_margin_on := false; pr_next_id := 0; pr_future_apis := true |}.
+  vm_compute. discriminate.
 Qed.
 (* ... and it is a function of configuration, data and strategy: repeating it gives the same result *)
-Theorem run_deterministic data cfg rid ops p : prun data (boot cfg rid p) ops = prun data (boot cfg rid p) ops.
+Theorem run_deterministic data cfg hf rid ops p : prun data (boot cfg hf rid p) ops = prun data (boot cfg hf rid p) ops.
 Proof. reflexivity. Qed.
 (* a memoised value that survived from an earlier run would be visible: boot must clear the caches *)
 Theorem stale_cache_would_leak : exists data data' key p, data key <> data' key /\
-  prun data' (pfinal data p [PCached key]) [PCached key] <> prun data' {| pr_switches := pr_switches p; pr_env := 0; pr_cache := []; pr_margin_on := false; pr_next_id := 0 |} [PCached key].
+  prun data' (pfinal data p [PCached key]) [PCached key] <> prun data' {| pr_switches := pr_switches p; pr_env := 0; pr_cache := []; pr_margin_on := false; pr_next_id := 0; pr_future_apis := false |} [PCached key].
 Proof.
-  exists (fun _ => 1), (fun _ => 2), 7, {| pr_switches := {| sw_reinvest := false; sw_cash_return := false; sw_t1 := false |}; pr_env := 0; pr_cache := []; pr_margin_on := false; pr_next_id := 0 |}.
+  exists (fun _ => 1), (fun _ => 2), 7, {| pr_switches := {| sw_reinvest := false; sw_cash_return := false; sw_t1 := false |}; pr_env := 0; pr_cache := []; pr_margin_on := false; pr_next_id := 0; pr_future_apis := false |}.
   split; [discriminate|]. vm_compute. discriminate.
 Qed.
 
